@@ -29,7 +29,11 @@ model (Model/C02Top.lean) and its theorems use:
     `bool doPivoting = ...` of the declarations inside class DenseMatrix.
 
 The sequential in-place updates of `invert` are kept as sequential `let` rebinding in exactly the source order.
-`#ifdef DUNE_FMatrix_WITH_CHECKING ... #endif` regions are not compiled by the harness and are skipped.
+`#ifdef DUNE_FMatrix_WITH_CHECKING ... #endif` regions are not compiled by the harness.  Outside the closed-form blocks they
+are skipped; inside a closed-form block of solve / invert (round five) a region must be the test
+`if (Simd::anyTrue(fvmeta::absreal(E) < FMatrixPrecision<>::absolute_limit())) DUNE_THROW(FMatrixError, ...)` and the
+tested quantity E is emitted, with the locals as bound at that point, as `solve1Checked` ... `invert2Checked`
+(tie_checked_quantity: it is the determinant).
 
 Round five (behaviour-preserving respellings are normalised before anything is matched; what cannot be recognised
 soundly still raises):
@@ -107,6 +111,42 @@ def strip_checking(src):
             continue
         out.append(ln)
     if skipping:
+        raise TranslateError("unterminated DUNE_FMatrix_WITH_CHECKING region")
+    return "\n".join(out)
+
+
+CHECK_RX = re.compile(r'if\(Simd::anyTrue\(fvmeta::absreal\((.+)\)<FMatrixPrecision<>::absolute_limit\(\)\)\)'
+                      r'DUNE_THROW\(FMatrixError,"[^"]*"\);')
+
+
+def mark_checking(src):
+    """round five: like strip_checking, but a region of the form
+         if (Simd::anyTrue(fvmeta::absreal(E) < FMatrixPrecision<>::absolute_limit())) DUNE_THROW(FMatrixError, "...");
+    is kept as the pseudo statement `__checked__(E);` (the closed-form blocks record WHICH quantity the build with
+    DUNE_FMatrix_WITH_CHECKING tests); any other region becomes `__checked_unknown__;` (raises inside a block)"""
+    lines = src.split("\n")
+    out = []
+    region = None
+    for ln in lines:
+        t = ln.strip()
+        if region is None and re.fullmatch(r"#\s*ifdef\s+DUNE_FMatrix_WITH_CHECKING", t):
+            region = []
+            out.append("")
+            continue
+        if region is not None:
+            if re.match(r"#\s*(if|ifdef|ifndef|else|elif)\b", t):
+                raise TranslateError("nested preprocessor conditional inside DUNE_FMatrix_WITH_CHECKING region")
+            if re.fullmatch(r"#\s*endif.*", t):
+                body = re.sub(r"\s*([^\w\s])\s*", r"\1", re.sub(r"\s+", " ", " ".join(region))).strip()
+                m = CHECK_RX.fullmatch(body)
+                out.append(" __checked__(%s); " % m.group(1) if m else " __checked_unknown__; ")
+                region = None
+                continue
+            region.append(ln)
+            out.append("")
+            continue
+        out.append(ln)
+    if region is not None:
         raise TranslateError("unterminated DUNE_FMatrix_WITH_CHECKING region")
     return "\n".join(out)
 
@@ -212,6 +252,7 @@ class Block:
         self.lines = []
         self.ret = None
         self.aliases = {}                   # round five: `const K& name = entry`
+        self.checked = []                   # round five: (position, expression) of `__checked__(E)`
         self.void = False                   # block of a void function: a bare `return;` may end it
         self.void_return = False
         self.ret_seen = False
@@ -342,6 +383,13 @@ class Block:
                 raise TranslateError("%s: reference to something that is not an entry: %r" % (self.what, s[:80]))
             self.aliases[m.group(1)] = e
             return
+        m = re.fullmatch(r"__checked__\s*\((.*)\)", s, re.S)
+        if m:
+            # the quantity whose magnitude the DUNE_FMatrix_WITH_CHECKING build compares with the absolute limit
+            self.checked.append((len(self.lines), self.full_expr(tokenize(m.group(1)))))
+            return
+        if s.startswith("__checked_unknown__"):
+            raise TranslateError("%s: DUNE_FMatrix_WITH_CHECKING region outside the grammar" % self.what)
         if s == "return" and self.void:
             self.void_return = True
             self.ret_seen = True
@@ -494,7 +542,22 @@ def emit(name, n, blk, kind):
         body.append("(" + blk.ret + ", ⟨" + ", ".join("r%d%d" % (i, j) for i in range(n) for j in range(n)) + "⟩)")
     out = ["def %s %s %s : %s :=" % (name, CLASSES, params, rty)]
     out += ["  " + l for l in body]
+    want = 1 if name in CHECKED_BLOCKS else 0
+    if len(blk.checked) != want:
+        raise TranslateError("%s: %d DUNE_FMatrix_WITH_CHECKING tests in this block (expected %d)" % (name, len(blk.checked), want))
+    for pos, e in blk.checked:
+        out.append("")
+        out.append("set_option linter.unusedVariables false in")
+        out.append("/-- the quantity whose magnitude `%s` compares with `FMatrixPrecision<>::absolute_limit()` when "
+                   "DUNE_FMatrix_WITH_CHECKING is defined (FMatrixError below the limit); tied to the determinant by "
+                   "`tie_checked_quantity` -/" % name)
+        out.append("def %sChecked %s %s : K :=" % (name, CLASSES, params))
+        out += ["  " + l for l in blk.lines[:pos]]
+        out.append("  " + e)
     return "\n".join(out)
+
+
+CHECKED_BLOCKS = ("solve1", "solve2", "solve3", "invert1", "invert2")
 
 
 
@@ -1851,12 +1914,13 @@ def translate(repo):
     fm = strip_checking(strip_comments(open(os.path.join(repo, "dune/common/fmatrix.hh")).read()))
     out = [HEADER]
 
+    dmc = mark_checking(strip_comments(open(os.path.join(repo, "dune/common/densematrix.hh")).read()))
     det_body = function_body(
-        dm, r"DenseMatrix<MAT>::determinant\s*\(\s*bool\s+doPivoting\s*\)\s*const", "determinant")
+        dmc, r"DenseMatrix<MAT>::determinant\s*\(\s*bool\s+doPivoting\s*\)\s*const", "determinant")
     solve_body = function_body(
-        dm, r"DenseMatrix<MAT>::solve\s*\(\s*V1\s*&\s*x\s*,\s*const\s+V2\s*&\s*b\s*,\s*bool\s+doPivoting\s*\)\s*const",
+        dmc, r"DenseMatrix<MAT>::solve\s*\(\s*V1\s*&\s*x\s*,\s*const\s+V2\s*&\s*b\s*,\s*bool\s+doPivoting\s*\)\s*const",
         "solve")
-    inv_body = function_body(dm, r"DenseMatrix<MAT>::invert\s*\(\s*bool\s+doPivoting\s*\)", "invert")
+    inv_body = function_body(dmc, r"DenseMatrix<MAT>::invert\s*\(\s*bool\s+doPivoting\s*\)", "invert")
     det_body, solve_body, inv_body = canon_dispatch(det_body), canon_dispatch(solve_body), canon_dispatch(inv_body)
 
     for n in (1, 2, 3):
